@@ -571,6 +571,80 @@ class Storm:
             c.close()
         self.quiesce(srv, expect_users=[], expect_conns=0, what="flood teardown")
 
+    # ---------------------------------------------------------------- W11 one query, one state
+    def w_query_atomic(self, srv, pairs, n):
+        """connections flip between two nicknames a<i> / b<i> as fast as they can while observers ask ISON and USERHOST
+        about all of them, the 2*pairs names repeated so that the answer takes several reply lines: every line of one
+        answer must describe the same state (exactly one name of each pair, the same in every line) - a query is one
+        command taking effect atomically, however many reply lines it needs"""
+        import threading
+        self.rounds += 1
+        pfx = self.uid("f")
+        names_a = ["%sa%d" % (pfx, i) for i in range(pairs)]
+        names_b = ["%sb%d" % (pfx, i) for i in range(pairs)]
+        fl = []
+        for i in range(pairs):
+            c = wire.Client(srv.port, name="fl%d" % i, timeout=20.0)
+            c.keep_transcript = False
+            if self.password:
+                c.send("PASS " + self.password)
+            c.send("NICK " + names_a[i])
+            c.send("USER f%d 0 * :flipper" % i)
+            fl.append(c)
+        for c in fl:
+            c.read_until(lambda m: m.verb == "221")
+        obs = open_many(srv, 2, pfx + "o", password=self.password)
+        stop = []
+
+        def flip(i, c):
+            k = 0
+            try:
+                while not stop and k < n:
+                    burst = b"".join(b"NICK %s\r\nNICK %s\r\n" % (names_b[i].encode(), names_a[i].encode()) for _ in range(10))
+                    c.send_raw(burst + b"PING f\r\n")
+                    c.read_until(lambda m: m.verb == "PONG", 20.0)
+                    k += 20
+            except (wire.Closed, wire.Timeout, OSError):
+                pass
+        ths = [threading.Thread(target=flip, args=(i, c), daemon=True) for i, c in enumerate(fl)]
+        for t in ths:
+            t.start()
+        block = names_a + names_b
+        asked = " ".join(block * max(2, 140 // len(block)))
+        bad = None
+        answers = 0
+        try:
+            for q in range(60):
+                for o, verb, code in ((obs[0], "ISON", "303"), (obs[1], "USERHOST", "302")):
+                    o.send("%s %s" % (verb, asked))
+                    lines = [m for m in o.ping("q%d" % q, 20.0) if m.verb == code]
+                    answers += 1
+                    sets = []
+                    for m in lines:
+                        got = [w.split("=")[0].rstrip("*") for w in m.params[-1].split()]
+                        sets.append(sorted(set(got)))
+                        for i in range(pairs):
+                            if (names_a[i] in got) == (names_b[i] in got):
+                                bad = bad or "%s answer line names %s of the pair %s/%s (each connection holds exactly one " \
+                                             "of its two names at any time): %s" % (verb, "both" if names_a[i] in got else "neither",
+                                                                                     names_a[i], names_b[i], m.raw[:160])
+                    if len({tuple(x) for x in sets}) > 1 and not bad:
+                        bad = "the %d lines of one %s answer about the same names describe different states: %s vs %s" \
+                              % (len(sets), verb, sets[0][:6], next(x for x in sets if x != sets[0])[:6])
+                if bad:
+                    break
+        finally:
+            stop.append(1)
+            for t in ths:
+                t.join(25.0)
+        self.events += answers
+        if bad:
+            self.bad("storm:query-not-atomic", bad)
+        self.classes.add(("query-atomic", pairs, bool(bad)))
+        for c in fl + obs:
+            c.close()
+        self.quiesce(srv, expect_users=[], expect_conns=0, what="query-atomic teardown")
+
     # ---------------------------------------------------------------- W10 a backlogged receiver still gets answers
     def w_backlog(self, srv, k, n):
         """k senders pipeline n messages each to one receiver that reads nothing (some 10 MB pile up in the kernel buffers
@@ -924,6 +998,8 @@ def worker(args):
                         st.w_limit(srv, r.choice([6, 10]), r.choice([1, 2, 3, 5]))
                     elif kind == "fifo":
                         st.w_order_full(srv, r.choice([3, 5, 12]), r.choice([30, 120]) if quick else r.choice([80, 400]))
+                    elif kind == "queries":
+                        st.w_query_atomic(srv, 10, 2000)
                     elif kind == "backlog":
                         st.w_backlog(srv, 4, 12000)
                     elif kind == "quitflood":
